@@ -1,6 +1,7 @@
 """C04 - taste rejects missing, truncated, shifted or inconsistent plotfile data.
 (C20 re-uses this enumeration with its own oracle, see c20.py)"""
 import os
+import sys
 import re
 import shutil
 import itertools
@@ -134,10 +135,19 @@ def cases(tier, seed, textual=False):
     return out
 
 
-def run_taste(path, limit, coords, nofail):
+def run_taste(path, limit, coords, nofail, ascii_out=False):
+    """ascii_out: the standard output of the process can only encode ASCII (a C-locale terminal, a log file opened that way):
+    part of the environment - the verdict must not depend on it"""
     from amr_kitchen.taste import Taster
-    with vpool.controlled() as ctl:
-        st, val = call(lambda: Taster(path, limit_level=limit, boxes_coordinates=coords, nofail=nofail, verbose=0))
+    import io
+    old = sys.stdout
+    if ascii_out:
+        sys.stdout = io.TextIOWrapper(io.BytesIO(), encoding="ascii", errors="strict", write_through=True)
+    try:
+        with vpool.controlled() as ctl:
+            st, val = call(lambda: Taster(path, limit_level=limit, boxes_coordinates=coords, nofail=nofail, verbose=0))
+    finally:
+        sys.stdout = old
     if st == "exc":
         return "raised", val
     return ("good" if bool(val) else "bad"), val
@@ -185,7 +195,7 @@ def run_case(case, workdir, mode="C04"):
             rb = mutate.ref_bad(mp, limit, coords)
             if mode == "C04":
                 v_fail, e1 = run_taste(mp, limit, coords, nofail=False)
-                v_nofail, e2 = run_taste(mp, limit, coords, nofail=True)
+                v_nofail, e2 = run_taste(mp, limit, coords, nofail=True, ascii_out=(mi % 3 == 0))
                 rec.exe([dh, muts, limit, coords], nontrivial=rb is not None, trans=2)
                 rec.count("ref_bad" if rb else "ref_ok")
                 rec.count("taste_accepts" if v_nofail == "good" else "taste_rejects")
